@@ -39,9 +39,53 @@ func (o *Obligation) script(e *Enc, extraAssume string, getValues []string) stri
 	if n > len(e.out) {
 		n = len(e.out)
 	}
-	drop := irrelevantAxioms(e.out[:n], append(append([]string{}, o.Extra...), extraAssume, o.Reach, o.Goal))
+	// relevance filter for axioms (see axiomLine)
+	skip := map[int]bool{}
+	if len(e.axiomLines) > 0 {
+		isAx := map[int]bool{}
+		for _, a := range e.axiomLines {
+			for i := a.lo; i < a.hi && i < n; i++ {
+				isAx[i] = true
+			}
+		}
+		var rest strings.Builder
+		for i, l := range e.out[:n] {
+			if !isAx[i] || !strings.HasPrefix(l, "(assert") {
+				if strings.HasPrefix(l, "(declare-") {
+					continue // a declaration is not a use
+				}
+				rest.WriteString(l)
+				rest.WriteByte('\n')
+			}
+		}
+		for _, l := range o.Extra {
+			rest.WriteString(l)
+		}
+		rest.WriteString(extraAssume + o.Reach + o.Goal + strings.Join(getValues, " "))
+		text := rest.String()
+		for _, a := range e.axiomLines {
+			used := len(a.syms) == 0
+			for _, sname := range a.syms {
+				if strings.Contains(text, sname) {
+					used = true
+					break
+				}
+			}
+			if !used {
+				for i := a.lo; i < a.hi && i < n; i++ {
+					if strings.HasPrefix(e.out[i], "(assert") {
+						skip[i] = true
+					}
+				}
+			}
+		}
+	}
+	// second relevance filter (characteristic symbols, transitive): see irrelevantAxioms
+	for i := range irrelevantAxioms(e.out[:n], append(append([]string{}, o.Extra...), extraAssume, o.Reach, o.Goal)) {
+		skip[i] = true
+	}
 	for i, l := range e.out[:n] {
-		if drop[i] {
+		if skip[i] {
 			continue
 		}
 		b.WriteString(l)
@@ -83,17 +127,49 @@ func runPortfolio(script string, dir string, name string, timeout time.Duration,
 	if err := os.WriteFile(file, []byte(script), 0o644); err != nil {
 		return solveOut{result: "error", raw: err.Error()}
 	}
+	// sliced variant: the same obligation with the quantified hypotheses that share no heap / ghost symbol with the goal
+	// (transitively) left out. Fewer hypotheses => an `unsat` of the sliced script is an `unsat` of the full one (sound);
+	// a `sat` of the sliced script means nothing and is ignored.
+	slicedFile := ""
+	if sl, dropped := sliceScript(script); dropped > 0 {
+		slicedFile = filepath.Join(dir, name+".sliced.smt2")
+		if err := os.WriteFile(slicedFile, []byte(sl), 0o644); err != nil {
+			slicedFile = ""
+		}
+	}
 	ctx, cancel := context.WithCancel(context.Background())
 	defer cancel()
 	type r struct {
 		solver, result, out string
 		secs                float64
 	}
-	ch := make(chan r, len(solvers))
-	var wg sync.WaitGroup
+	type member struct {
+		s      solverSpec
+		file   string
+		seed   int
+		sliced bool
+		label  string
+	}
+	var members []member
 	for _, s := range solvers {
+		members = append(members, member{s, file, seed, false, s.name})
+	}
+	if !all {
+		// a second z3 with another seed (quantifier instantiation order is seed-sensitive), and the sliced script
+		members = append(members, member{solvers[0], file, seed + 7, false, solvers[0].name + "/seed+7"})
+		if slicedFile != "" {
+			members = append(members, member{solvers[0], slicedFile, seed, true, solvers[0].name + "/sliced"})
+			members = append(members, member{solvers[2], slicedFile, seed, true, solvers[2].name + "/sliced"})
+		}
+	}
+	ch := make(chan r, len(members))
+	var wg sync.WaitGroup
+	for _, m := range members {
 		wg.Add(1)
-		go func(s solverSpec) {
+		go func(m member) {
+			s := m.s
+			file := m.file
+			seed := m.seed
 			defer wg.Done()
 			t0 := time.Now()
 			cctx, ccancel := context.WithTimeout(ctx, timeout+2*time.Second)
@@ -118,8 +194,12 @@ func runPortfolio(script string, dir string, name string, timeout time.Duration,
 			case strings.HasPrefix(first, "(error") || strings.Contains(first, "rror"):
 				res = "error"
 			}
-			ch <- r{s.name, res, txt, time.Since(t0).Seconds()}
-		}(s)
+			if m.sliced && res != "unsat" {
+				res = "unknown" // only a refutation of the sliced script carries over
+				txt = ""
+			}
+			ch <- r{m.label, res, txt, time.Since(t0).Seconds()}
+		}(m)
 	}
 	go func() { wg.Wait(); close(ch) }()
 	out := solveOut{result: "unknown", perSolver: map[string]float64{}, both: map[string]string{}}
@@ -259,6 +339,132 @@ func modelInt(v string) (string, bool) {
 		return n.String(), true
 	}
 	return "", false
+}
+
+// ---------- hypothesis slicing ----------
+
+var specificPrefixes = []string{"|F!", "|S!", "|P!", "|G!", "|MD!", "|MV!", "|RV!", "|ghost!", "|pure!", "|cseq!", "|box!", "|unbox!", "|impl!", "|gref!"}
+
+// specificSymbols: base names (version suffix stripped) of the heap / ghost / pure-function symbols of an SMT line.
+func specificSymbols(l string, into map[string]bool) {
+	for i := 0; i < len(l); i++ {
+		if l[i] != '|' {
+			continue
+		}
+		j := strings.IndexByte(l[i+1:], '|')
+		if j < 0 {
+			return
+		}
+		name := l[i : i+j+2]
+		i += j + 1
+		ok := false
+		for _, p := range specificPrefixes {
+			if strings.HasPrefix(name, p) {
+				ok = true
+				break
+			}
+		}
+		if !ok {
+			continue
+		}
+		if k := strings.LastIndex(name, "@"); k > 0 {
+			name = name[:k] // G!x@17| -> G!x
+		}
+		name = strings.TrimSuffix(name, "|")
+		// append/copy temporaries of a backing array: S!T!.f!app -> S!T!.f
+		name = strings.TrimSuffix(strings.TrimSuffix(name, "!app"), "!cpy")
+		into[name] = true
+	}
+	for _, w := range []string{"strlen", "strcat", "strat", "substr", "bseq", "str2bytes", "bytes2str", "strless"} {
+		if strings.Contains(l, "("+w+" ") {
+			into[w] = true
+		}
+	}
+}
+
+// sliceScript drops the quantified assertions that are unrelated (no shared specific symbol, transitively through all
+// assertions) to the obligation's goal. Returns the sliced script and the number of dropped assertions.
+func sliceScript(script string) (string, int) {
+	lines := strings.Split(script, "\n")
+	goalAt := -1
+	for i, l := range lines {
+		if strings.HasPrefix(l, "; obligation ") {
+			goalAt = i
+		}
+	}
+	if goalAt < 0 {
+		return script, 0
+	}
+	rel := map[string]bool{}
+	for _, l := range lines[goalAt:] {
+		specificSymbols(l, rel)
+	}
+	type as struct {
+		idx  int
+		syms map[string]bool
+		q    bool
+	}
+	var asserts []as
+	for i, l := range lines[:goalAt] {
+		if !strings.HasPrefix(l, "(assert") {
+			continue
+		}
+		m := map[string]bool{}
+		specificSymbols(l, m)
+		asserts = append(asserts, as{i, m, strings.Contains(l, "(forall ")})
+	}
+	for changed := true; changed; {
+		changed = false
+		for _, a := range asserts {
+			hit := false
+			for sname := range a.syms {
+				if rel[sname] {
+					hit = true
+					break
+				}
+			}
+			if !hit {
+				continue
+			}
+			for sname := range a.syms {
+				if !rel[sname] {
+					rel[sname] = true
+					changed = true
+				}
+			}
+		}
+	}
+	drop := map[int]bool{}
+	for _, a := range asserts {
+		if !a.q {
+			continue
+		}
+		hit := len(a.syms) == 0
+		for sname := range a.syms {
+			if rel[sname] {
+				hit = true
+				break
+			}
+		}
+		if !hit {
+			drop[a.idx] = true
+		}
+	}
+	if len(drop) == 0 {
+		return script, 0
+	}
+	var b strings.Builder
+	for i, l := range lines {
+		if drop[i] {
+			continue
+		}
+		if l == "(get-model)" || strings.HasPrefix(l, "(get-value") {
+			continue
+		}
+		b.WriteString(l)
+		b.WriteByte('\n')
+	}
+	return b.String(), len(drop)
 }
 
 // ---------- axiom relevance ----------
